@@ -971,18 +971,29 @@ def r5_memo_returns_mutable(run):
     params of a concurrent GET with the same query string."""
     p = run.project
     n = 0
+    # functions memoised through a module-level alias, in ANY module of the package:
+    #   X = functools.lru_cache(f)      X = functools.lru_cache(maxsize=..)(f)
+    aliased = {}
+    for mn, m in sorted(p.modules.items()):
+        if not _in_scope(mn):
+            continue
+        for k, v in m.consts.items():
+            if not (isinstance(v, ast.Call) and v.args):
+                continue
+            mf = _ModF(m)
+            w = p.resolve_callable(mf, v.func)
+            if not (isinstance(w, str) and w in LRU_WRAPPERS):
+                if isinstance(v.func, ast.Call):
+                    w = p.resolve_callable(mf, v.func.func)
+                if not (isinstance(w, str) and w in LRU_WRAPPERS):
+                    continue
+            t = p.resolve_callable(mf, v.args[0])
+            if isinstance(t, Func):
+                aliased[t.qual] = '%s.%s' % (mn, k)
     for g in p.all_functions():
         if not _in_scope(g.module.name):
             continue
-        memo = _lru_decorated(p, g)
-        if not memo:
-            # module-level alias  X = functools.lru_cache(f)
-            for k, v in g.module.consts.items():
-                if isinstance(v, ast.Call) and v.args and isinstance(p.resolve_callable(_ModF(g.module), v.func), str) \
-                        and p.resolve_callable(_ModF(g.module), v.func) in LRU_WRAPPERS:
-                    t = p.resolve_callable(_ModF(g.module), v.args[0])
-                    if t is g:
-                        memo = True
+        memo = _lru_decorated(p, g) or g.qual in aliased
         if not memo:
             continue
         n += 1
